@@ -81,6 +81,14 @@ class _Range:
     def refine(self, test, st, positive):
         """facts added when `test` is known to be true (positive) / false"""
         st = dict(st)
+        # not X: the opposite;  A and B true: both true;  A or B false: both false (one-sided outcomes add nothing)
+        if isinstance(test, ast.UnaryOp) and isinstance(test.op, ast.Not):
+            return self.refine(test.operand, st, not positive)
+        if isinstance(test, ast.BoolOp):
+            if isinstance(test.op, ast.And) == positive:
+                for v in test.values:
+                    st = self.refine(v, st, positive)
+            return st
         if isinstance(test, ast.Compare) and len(test.ops) == 2 and positive:
             # a <= p <= U
             a, p, b = test.left, test.comparators[0], test.comparators[1]
